@@ -59,20 +59,30 @@ def build(rec):
             expr = 0 * x[0]
         return expr
 
-    (m.min if rec['dir'] == 'min' else m.max)(lin(rec['obj']))
+    robust = rec['mode'] == 'robust'
+    if robust:
+        # row 1 becomes  a.x + 0.5 z.x <= b  for all z in a box (intersected with a ball when n >= 2):
+        # the formula is the robust counterpart compiled by ro.Model (dual columns, a cone from the ball)
+        z = m.rvar(n)
+        uset = (abs(z) <= 1, norm(z) <= 1.2) if n >= 2 else (abs(z) <= 1)
+        (m.minmax if rec['dir'] == 'min' else m.maxmin)(lin(rec['obj']), uset)
+    else:
+        (m.min if rec['dir'] == 'min' else m.max)(lin(rec['obj']))
     for j in range(n):
         lo, hi = T[rec['lb'][j] - 1], T[rec['ub'][j] - 1]
         if lo > -INF:
             m.st(x[j] >= lo)
         if hi < INF:
             m.st(x[j] <= hi)
-    for row in rec['rows']:
+    for i, row in enumerate(rec['rows']):
         e = lin(row['a'])
+        if robust and i == 0:
+            e = e + 0.5 * (z @ x)
         b = T[row['b'] - 1]
         m.st(e <= b if row['s'] == 'le' else e == b)
     for c in rec['cones']:
         m.st(norm(x[[k - 1 for k in c['mem']]]) <= x[c['h'] - 1])
-    f = m.do_math() if rec['mode'] == 'primal' else m.do_math(primal=False)
+    f = m.do_math(primal=False) if rec['mode'] == 'dual' else m.do_math()
     return m, x, f
 
 
@@ -924,7 +934,7 @@ def _replay(job, phase):
         notes.append('duplicate column entries in a sparse row')
     if 'bad' in P['sense']:
         raise RuntimeError('harness: sense outside {0,1}')
-    if P['n'] > 16 or P['m'] > 16:
+    if P['n'] > 40 or P['m'] > 40:
         raise RuntimeError('harness: formula larger than expected %s' % (F['shape'],))
 
     # -------------------------------------------------------------------------- exports
@@ -998,15 +1008,18 @@ def _replay(job, phase):
             res['tokens'] = 'not-reconstructible'
         else:
             tok_s = solve_scipy(Qt)
-            tok_g = solve_gurobi(Qt) if F['qmat'] else None
+            tok_g = solve_gurobi(Qt)
             res['tokens_scipy'] = tok_s
-            c2 = compare(truth_s, tok_s, tol) if not F['qmat'] else compare(truth_g, tok_g, tol)
+            res['tokens_gurobi'] = tok_g
+            # the same solver on both sides; a mismatch of either pair means the programs differ
+            cs = [compare(truth_g, tok_g, tol)] + ([compare(truth_s, tok_s, tol)] if not F['qmat'] else [])
+            c2 = ('status' if 'status' in cs else 'value' if 'value' in cs else 'ok' if 'ok' in cs else 'inconclusive')
             res['tokens_vs_formula'] = c2
             if c2 in ('status', 'value'):
                 if wc:
                     finding('C16:lp-text:optimum:' + c2,
-                            'program reconstructed from the tokens gives %s, the formula %s'
-                            % (tok_s if not F['qmat'] else tok_g, truth_s if not F['qmat'] else truth_g), text=text)
+                            'program reconstructed from the tokens gives %s / %s, the formula %s / %s'
+                            % (tok_g, tok_s, truth_g, truth_s), text=text)
                 else:
                     inconclusive += 1
             elif c2 == 'inconclusive':
@@ -1020,20 +1033,21 @@ def _replay(job, phase):
     try:
         from rsome import grb_solver
         import rsome.lp as rlp
-        if rec['mode'] == 'primal' and not injected:
+        # gurobi first: the default MILP interface overwrites the bounds of binaries in the cached formula
+        if rec['mode'] != 'dual' and not injected:
+            m.solve(grb_solver, display=False)
+            direct['gurobi'] = _sol_outcome(m.solution, grb=True)
             if not F['qmat']:
                 m.solve(display=False)
                 direct['default'] = _sol_outcome(m.solution)
-            m.solve(grb_solver, display=False)
-            direct['gurobi'] = _sol_outcome(m.solution, grb=True)
         else:
+            direct['gurobi'] = _sol_outcome(grb_solver.solve(f, display=False), grb=True)
             if not F['qmat']:
                 direct['default'] = _sol_outcome(rlp.def_sol(f, display=False))
-            direct['gurobi'] = _sol_outcome(grb_solver.solve(f, display=False), grb=True)
     except Exception as e:   # solver-interface trouble is not this property's business
         notes.append('rsome solve raised %r' % (e,))
     res['direct'] = direct
-    truth = truth_s if not F['qmat'] else truth_g
+    truth = truth_g if truth_g[0] != 'other' else truth_s
     for sname, out in direct.items():
         c3 = compare(truth, out, tol)
         if c3 in ('status', 'value') and wc and solver_pair_ok:
